@@ -1,5 +1,5 @@
 import LexVerif.Proof.BytesLimbs
-import LexVerif.Proof.SlowMantissa
+import LexVerif.Proof.SlowCompose
 /-!
 # Proof.BytesCompare — `compare_bytes`: generating the digits of `b + h` and comparing them with the input
 
@@ -155,5 +155,214 @@ theorem cmpDigits_spec {r Y : Nat} (hr : 0 < r) (hY : 0 < Y) : ∀ (ds : List Na
           have e1 : (q * K + D) * Y * r = D * Y * r + (q * K) * Y * r := by ring
           have e2 : (q * K) * Y * r + rem * r * K = rem * r * K + (q * K) * Y * r := by ring
           rw [e1, e2, cmp_add_right]
+
+/-! ## the limb level -/
+
+/-- the divisor after the normalisation step of `byte_comp`: top limb at least `2^57`, and `radix·(top + 1) ≤ 2^64`, so
+that every numerator `rem·radix` still has at most as many limbs -/
+structure DenOk (cap radix : Nat) (den : Limbs) : Prop where
+  norm : Normalized den
+  top : ∃ ys yn1, den = ys ++ [yn1] ∧ 2 ^ 57 ≤ yn1 ∧ radix * (yn1 + 1) ≤ B64
+  len : den.length ≤ cap
+  r2 : 2 ≤ radix
+
+/-- a numerator: normalised, at most as many limbs as the divisor -/
+def NumOk (den num : Limbs) : Prop := Normalized num ∧ valL num < B64 ^ den.length
+
+theorem denOk_facts {cap radix : Nat} {den : Limbs} (D : DenOk cap radix den) :
+    0 < valL den ∧ radix * valL den ≤ B64 ^ den.length ∧ 2 ^ 57 * B64 ^ (den.length - 1) ≤ valL den ∧ radix < B64 := by
+  obtain ⟨ys, yn1, rfl, h57, hr⟩ := D.top
+  have oys := (limbsOk_append.mp D.norm.1).1
+  have hys := valL_lt oys
+  have hpos : 0 < B64 ^ ys.length := Nat.pow_pos B64_pos
+  rw [valL_append]
+  simp only [List.length_append, List.length_singleton, Nat.add_sub_cancel]
+  refine ⟨?_, ?_, ?_, ?_⟩
+  · have : 0 < B64 ^ ys.length * yn1 := Nat.mul_pos hpos (by have := Nat.two_pow_pos 57; omega)
+    omega
+  · rw [Nat.pow_succ]
+    have h1 : radix * (valL ys + B64 ^ ys.length * yn1) ≤ radix * (B64 ^ ys.length * (yn1 + 1)) :=
+      Nat.mul_le_mul_left _ (by rw [Nat.mul_add, Nat.mul_one]; omega)
+    have h2 : radix * (B64 ^ ys.length * (yn1 + 1)) = B64 ^ ys.length * (radix * (yn1 + 1)) := by ring
+    have h3 : B64 ^ ys.length * (radix * (yn1 + 1)) ≤ B64 ^ ys.length * B64 := Nat.mul_le_mul_left _ hr
+    omega
+  · have : 2 ^ 57 * B64 ^ ys.length ≤ B64 ^ ys.length * yn1 := by
+      rw [Nat.mul_comm]; exact Nat.mul_le_mul_left _ h57
+    omega
+  · have : radix * 1 ≤ radix * (yn1 + 1) := Nat.mul_le_mul_left _ (by omega)
+    have h2 := D.r2
+    have : radix * (yn1 + 1) ≥ radix * 2 := Nat.mul_le_mul_left _ (by have := Nat.two_pow_pos 57; omega)
+    omega
+
+theorem numOk_length {den num : Limbs} (h : NumOk den num) : num.length ≤ den.length := by
+  by_cases hne : num = []
+  · subst hne; simp
+  · have h1 := valL_ge h.1 hne
+    have h3 : B64 ^ (num.length - 1) < B64 ^ den.length := by have := h.2; omega
+    have := (Nat.pow_lt_pow_iff_right (by unfold B64; decide : 1 < B64)).mp h3
+    omega
+
+theorem isEmpty_iff {num : Limbs} (h : Normalized num) : num.isEmpty = true ↔ valL num = 0 := by
+  rw [valL_eq_zero h]
+  cases num <;> simp
+
+/-- **one digit**: `quorem`, compare with the input digit, multiply the remainder by the radix -/
+theorem stepDigit_spec {cap radix : Nat} {den num : Limbs} (D : DenOk cap radix den) (N : NumOk den num) (c : Nat) :
+    (Binary.digitVal c radix < valL num / valL den → stepDigit cap radix c num den = .done .lt) ∧
+    (Binary.digitVal c radix > valL num / valL den → stepDigit cap radix c num den = .done .gt) ∧
+    (Binary.digitVal c radix = valL num / valL den →
+      ∃ num', stepDigit cap radix c num den = .cont num' ∧ NumOk den num' ∧
+        valL num' = valL num % valL den * radix) := by
+  obtain ⟨hYpos, hrY, hY57, hrB⟩ := denOk_facts D
+  have hr2 := D.r2
+  obtain ⟨ys, yn1, hden, h57, hr⟩ := D.top
+  have hnl := numOk_length N
+  have hdl : den.length = ys.length + 1 := by rw [hden]; simp
+  have hyB : yn1 + 1 < B64 := by
+    have : 2 * (yn1 + 1) ≤ radix * (yn1 + 1) := Nat.mul_le_mul_right _ hr2
+    omega
+  obtain ⟨R, hq, nR, vR⟩ := largeQuoremL_spec (x := num) (ys := ys) (yn1 := yn1) N.1 (by rw [← hden]; exact D.norm)
+    (by omega) h57 hyB
+  rw [← hden] at hq vR
+  -- the quotient is a small number
+  have hqs : valL num / valL den < 2 ^ 32 := by
+    rw [Nat.div_lt_iff_lt_mul hYpos]
+    have h1 := N.2
+    rw [hdl, Nat.pow_succ] at h1
+    rw [hdl, Nat.add_sub_cancel] at hY57
+    have h2 : 2 ^ 32 * (2 ^ 57 * B64 ^ ys.length) ≤ 2 ^ 32 * valL den := Nat.mul_le_mul_left _ hY57
+    have h3 : B64 ^ ys.length * B64 ≤ 2 ^ 32 * (2 ^ 57 * B64 ^ ys.length) := by
+      have : B64 ≤ 2 ^ 32 * 2 ^ 57 := by unfold B64; norm_num
+      calc B64 ^ ys.length * B64 ≤ B64 ^ ys.length * (2 ^ 32 * 2 ^ 57) := Nat.mul_le_mul_left _ this
+        _ = 2 ^ 32 * (2 ^ 57 * B64 ^ ys.length) := by ring
+    omega
+  have hml := Nat.mod_lt (valL num) hYpos
+  -- the remainder times the radix
+  have hRr : valL R * radix < B64 ^ den.length := by
+    rw [vR]
+    have : valL num % valL den * radix < valL den * radix := Nat.mul_lt_mul_of_pos_right hml (by omega)
+    have : valL den * radix = radix * valL den := Nat.mul_comm _ _
+    omega
+  have hRl : R.length ≤ cap := by
+    have : NumOk den R := ⟨nR, by
+      have : valL R * 1 ≤ valL R * radix := Nat.mul_le_mul_left _ (by omega)
+      omega⟩
+    have := numOk_length this
+    have := D.len
+    omega
+  obtain ⟨m1, m2⟩ := smallMulL_spec (cap := cap) nR hRl (y := radix) (by omega) hrB
+  obtain ⟨z, hz⟩ := m2 (by
+    have : B64 ^ den.length ≤ B64 ^ cap := Nat.pow_le_pow_right B64_pos D.len
+    omega)
+  obtain ⟨nz, vz⟩ := m1 z hz
+  unfold stepDigit
+  rw [hq]
+  simp only [hz, Nat.mod_eq_of_lt hqs]
+  refine ⟨fun h => by rw [if_pos h], fun h => ?_, fun h => ?_⟩
+  · rw [if_neg (by omega), if_pos h]
+  · rw [if_neg (by omega), if_neg (by omega)]
+    exact ⟨z, rfl, ⟨nz, by rw [vz]; exact hRr⟩, by rw [vz, vR]⟩
+
+theorem anyNonzero_dv {radix : Nat} : ∀ (bs : List Nat), (∀ c ∈ bs, c < 256) →
+    anyNonzero bs = (dv radix bs).any (· ≠ 0)
+  | [], _ => rfl
+  | c :: cs, h => by
+    have ih := anyNonzero_dv (radix := radix) cs (fun x hx => h x (List.mem_cons_of_mem _ hx))
+    unfold anyNonzero at ih ⊢
+    simp only [dv, List.map_cons, List.any_cons] at ih ⊢
+    rw [ih]
+    congr 1
+    by_cases h48 : c = 48
+    · subst h48
+      have : Binary.digitVal 48 radix = 0 := by
+        unfold Binary.digitVal; split
+        · rfl
+        · simp
+      simp [this]
+    · have := digitVal_ne_zero (radix := radix) (h c (List.mem_cons_self ..)) h48
+      simp [h48, this]
+
+/-- `integer_compare!` follows `stepsN` -/
+theorem integerCompare_spec {cap radix : Nat} {den : Limbs} (D : DenOk cap radix den) :
+    ∀ (bs : List Nat) (num : Limbs), (∀ c ∈ bs, c < 256) → NumOk den num →
+      match stepsN radix (valL den) (dv radix bs) (valL num) with
+      | .inl o => integerCompare cap radix den bs num = .done o
+      | .inr x' => ∃ num', integerCompare cap radix den bs num = .cont num' ∧ NumOk den num' ∧ valL num' = x'
+  | [], num, _, N => by
+    simp only [dv, List.map_nil, stepsN, integerCompare]
+    exact ⟨num, rfl, N, rfl⟩
+  | c :: cs, num, hb, N => by
+    have hcs : ∀ x ∈ cs, x < 256 := fun x hx => hb x (List.mem_cons_of_mem _ hx)
+    by_cases hx : valL num = 0
+    · have hemp : num.isEmpty = true := (isEmpty_iff N.1).mpr hx
+      rw [hx, stepsN_zero, ← anyNonzero_dv _ hb]
+      unfold integerCompare
+      rw [if_pos hemp]
+      by_cases ha : anyNonzero (c :: cs) = true
+      · rw [if_pos ha, if_pos ha]
+      · rw [if_neg ha, if_neg ha]
+        exact ⟨num, rfl, N, hx⟩
+    · have hemp : ¬ num.isEmpty = true := fun h => hx ((isEmpty_iff N.1).mp h)
+      obtain ⟨s1, s2, s3⟩ := stepDigit_spec D N c
+      have hdv : dv radix (c :: cs) = Binary.digitVal c radix :: dv radix cs := rfl
+      rw [hdv]
+      simp only [stepsN, if_neg hx]
+      unfold integerCompare
+      rw [if_neg hemp]
+      by_cases h1 : Binary.digitVal c radix < valL num / valL den
+      · rw [if_pos h1, s1 h1]
+      · rw [if_neg h1]
+        by_cases h2 : Binary.digitVal c radix > valL num / valL den
+        · rw [if_pos h2, s2 h2]
+        · rw [if_neg h2]
+          obtain ⟨num', e1, N', v'⟩ := s3 (by omega)
+          rw [e1]
+          simp only []
+          rw [← v']
+          exact integerCompare_spec D cs num' hcs N'
+
+/-- `fraction_compare!` follows `stepsN`, then decides at the end of the input -/
+theorem fractionCompare_spec {cap radix : Nat} {den : Limbs} (D : DenOk cap radix den) :
+    ∀ (bs : List Nat) (num : Limbs), (∀ c ∈ bs, c < 256) → NumOk den num →
+      match stepsN radix (valL den) (dv radix bs) (valL num) with
+      | .inl o => fractionCompare cap radix den bs num = .done o
+      | .inr x' => if x' = 0 then ∃ num', fractionCompare cap radix den bs num = .cont num'
+          else fractionCompare cap radix den bs num = .done .lt
+  | [], num, _, N => by
+    simp only [dv, List.map_nil, stepsN, fractionCompare]
+    by_cases hx : valL num = 0
+    · rw [if_pos hx, if_pos ((isEmpty_iff N.1).mpr hx)]
+      exact ⟨num, rfl⟩
+    · rw [if_neg hx, if_neg (fun h => hx ((isEmpty_iff N.1).mp h))]
+  | c :: cs, num, hb, N => by
+    have hcs : ∀ x ∈ cs, x < 256 := fun x hx => hb x (List.mem_cons_of_mem _ hx)
+    by_cases hx : valL num = 0
+    · have hemp : num.isEmpty = true := (isEmpty_iff N.1).mpr hx
+      rw [hx, stepsN_zero, ← anyNonzero_dv _ hb]
+      unfold fractionCompare
+      rw [if_pos hemp]
+      by_cases ha : anyNonzero (c :: cs) = true
+      · rw [if_pos ha, if_pos ha]
+      · rw [if_neg ha, if_neg ha]
+        simp only [if_true]
+        exact ⟨num, rfl⟩
+    · have hemp : ¬ num.isEmpty = true := fun h => hx ((isEmpty_iff N.1).mp h)
+      obtain ⟨s1, s2, s3⟩ := stepDigit_spec D N c
+      have hdv : dv radix (c :: cs) = Binary.digitVal c radix :: dv radix cs := rfl
+      rw [hdv]
+      simp only [stepsN, if_neg hx]
+      unfold fractionCompare
+      rw [if_neg hemp]
+      by_cases h1 : Binary.digitVal c radix < valL num / valL den
+      · rw [if_pos h1, s1 h1]
+      · rw [if_neg h1]
+        by_cases h2 : Binary.digitVal c radix > valL num / valL den
+        · rw [if_pos h2, s2 h2]
+        · rw [if_neg h2]
+          obtain ⟨num', e1, N', v'⟩ := s3 (by omega)
+          rw [e1]
+          simp only []
+          rw [← v']
+          exact fractionCompare_spec D cs num' hcs N'
 
 end LexVerif.Proof.Slow
